@@ -154,7 +154,7 @@ func (solarWeek *SolarWeek) Next(weeks int, separateMonth bool) *SolarWeek {
 						week = NewSolarWeekFromYmd(lastDay.year, lastDay.month, lastDay.day, solarWeek.start)
 						weekMonth = week.month
 					} else {
-						c = NewSolarFromYmd(week.GetYear(), week.GetMonth(), SolarUtil.GetDaysOfMonth(week.year, week.month))
+						c = NewSolarFromYmd(week.GetYear(), week.GetMonth(), 1).NextDay(SolarUtil.GetDaysOfMonth(week.year, week.month) - 1)
 						week = NewSolarWeekFromYmd(c.GetYear(), c.GetMonth(), c.GetDay(), solarWeek.start)
 					}
 				}
